@@ -6,6 +6,14 @@ sys.path.insert(0, os.path.join(ROOT, "lib"))
 import propcfg
 
 LEVEL = {
+ "C02": ("Machine-checked theorems about the Gallina model of Holder::redact/build: redacting a non-disclosable path changes nothing, the result depends on the set of redactions only, every disclosure that is neither redacted nor below a redacted disclosable claim is presented; tied to /repo by a differential run (library- and reference-issued tokens, bound and unbound) in which the model must reproduce the presentation string and the verifier's claims must equal the original minus the withheld claims.",
+         "partial: the end-to-end equation verifier(build(redact R)) = project is exercised by the correspondence run; the theorems are about the holder's selection; composition with the restore theorems (C03) is pending"),
+ "C05": ("Machine-checked exact characterisation (iff) of when the Gallina model of Verifier::verify_raw and verify_kb accepts, for all tokens, oracles and policies, with the property's rejections as corollaries; tied to /repo by a differential run over harness-crafted presentations with exactly one key-binding defect of 28 kinds (or none).",
+         "partial: signature and policy checking of the KB-JWT inside jwt-rustcrypto is the o_kb oracle, filled from an independent RSA verification"),
+ "C06": ("Machine-checked theorems that the holder model never selects the disclosure of a redacted disclosable claim nor of any claim below it, for every holder state and redaction list; tied to /repo by a differential run with unique sentinels in every marked name and scalar value, searching the decoded bytes of the issuer JWT and of every presentation.",
+         "partial: 'no byte' is checked at the level of the decoded JSON texts; the issuer-side atom theorem is pending the port of the issuer fold proofs"),
+ "C09": ("Machine-checked shape theorem for the model of Holder::build with key binding (prefix ++ KB-JWT over {alg, typ: kb+jwt} and {aud, iat, nonce, sd_hash = hash of exactly the prefix under _sd_alg}) and repeatability; tied to /repo by a differential run with 6 RSA algorithms, 3 digest algorithms, repeated builds, independent recomputation of sd_hash and independent RSA signature verification.",
+         "partial: freshness of the nonce and correctness of the clock are properties of thread_rng/chrono (oracles); the run checks distinctness and the iat window only"),
  "C03": ("Machine-checked theorems (induction over all annotated trees and all disclosure lists) that the modelled restore algorithm ends in exactly the view determined by the set of presented disclosures, and that stripping a view is the property's projection; tied to /repo by a differential run of Holder::verify, Verifier::verify and Holder::presentation against the extracted model on reference-issued tokens with adversarial lists. Proof is the right level: the quantifier ranges over every list an attacker can type.",
          "partial: theorem currently covers the pass loop for duplicate-free lists (duplicates and the post-pass checks are exercised by the correspondence run only); premises hash_inj and dec_enc idealise SHA-2 collision resistance and base64/JSON round-tripping"),
  "C14": ("Machine-checked theorems about the Gallina model of Issuer::encode: it never panics for any claims object, any path strings, any decoy maximum and any random draws; an unresolvable path of each kind is an error at its step, and an error at any position of the list fails the whole call. Tied to /repo by a differential run in which the model must reproduce the produced token exactly from the read-back random choices, over valid markings (also only-nested ones), invalid path lists, decoy maxima in [-3,50] and repeated encode() calls.",
